@@ -538,6 +538,16 @@ func globalUses(fn *ssa.Function) []globalUse {
 				}
 			case ssa.CallInstruction:
 				cc := x.Common()
+				if cc.IsInvoke() {
+					// a stateful object (hasher, writer, buffer) kept in a package-level variable and driven through
+					// its interface: Write / Reset / Sum sequences of different compilations interleave
+					if g := rootGlobal(cc.Value, 0); g != nil {
+						switch cc.Method.Name() {
+						case "Write", "WriteString", "WriteByte", "Reset", "Sum", "Read", "Seek":
+							out = append(out, globalUse{g, "mutcall", ins, "stateful interface method " + cc.Method.Name() + " on an object held in a package-level variable"})
+						}
+					}
+				}
 				for i, a := range cc.Args {
 					g := rootGlobal(a, 0)
 					if g == nil {
